@@ -316,8 +316,91 @@ def h_index_lemma(eng):
     eng.prove("lemma.index_in_range", z3.And(transposed >= 0, transposed < n1 * n2))
 
 
-HARNESSES = [("Model._expand_vectors", h_expand), ("lemma: reshape/transpose index", h_index_lemma)]
-EXPECTED_COVER = {"expand.done", "lemma.done"}
+# ------------------------------------------------------------------------------------------------ Generator.get_symbol: shape bookkeeping
+GEN = "pymoca.backends.casadi.generator"
+SHAPES = [  # dimensions per component level of the flat symbol (None = scalar level), with / without expand_vectors
+    ((None,),), ((3,),), ((2,), (3,)), ((None,), (3,)), ((2, 3),), ((2,), (None,), (4,)), ((2, 3, 4),), ((2,), (3,), (4,)),
+]
+
+
+def h_get_symbol(eng):
+    """Generator.get_symbol: the CasADi symbol of a flat variable is created with the variable's array dimensions (scalar levels of the
+    dotted path contribute none), remembers in _modelica_shape the dimensions of EVERY level of the path (so that the expansion can put
+    each index behind its own component: len(_modelica_shape) = number of dotted components), and is registered under the flat name;
+    three and more array dimensions need expand_vectors (else a NotImplementedError, never a silently reshaped symbol)."""
+    from .ast_common import base_modules
+    base_modules(eng)
+    from .api_common import ModuleStub as _MS
+    eng.ext_modules["casadi"] = _MS("casadi", {"MX": VClass("MX"), "DM": VClass("DM")})
+    eng.ext_modules["numpy"] = _MS("numpy", {})
+    eng.ext_modules["pymoca.tree"] = _MS("pymoca.tree", {"TreeListener": VClass("TreeListener"), "TreeWalker": VClass("TreeWalker"), "flatten": None})
+    gm = eng.load_module(GEN)
+    from .gen_common import new_generator
+    shape = SHAPES[eng.choice(len(SHAPES))]
+    expand = bool(eng.choice(2))
+    eng.input("dimensions_per_level", [list(l) for l in shape])
+    eng.input("expand_vectors", expand)
+    made = []
+
+    def new_mx(eng, args, kw):
+        t = SymT(args[0], tuple(args[1:]))
+        t.kind = "MX"
+        made.append(t)
+        return t
+
+    class Tensor(SymT):
+        def sym_setattr(self, eng, name, value):
+            setattr(self, "set_" + name, value)
+    orig_setattr = SymT.sym_setattr if hasattr(SymT, "sym_setattr") else None
+
+    def sym_setattr(self, eng, name, value):
+        if name == "_modelica_shape":
+            self.mshape = value
+        else:
+            raise Unsupported("setattr %s" % name)
+    SymT.sym_setattr = sym_setattr
+    mt = VClass("_MTensor")
+
+    def mt_ctor(eng, c, a, k):
+        t = SymT(a[0], tuple(a[1:]))
+        t.kind = "MTensor"
+        made.append(t)
+        return t
+    mt.constructor = mt_ctor
+    gm.globals["_MTensor"] = mt
+    eng.call_contracts["_new_mx"] = new_mx
+    klass = VObj(VClass("Class"), {"name": "M"})
+    nodes = VDict([(klass, VDict())])
+    g = new_generator(eng, gm, {"nodes": nodes, "entered_classes": VList([klass]), "src": VDict(), "_expand_vectors_enabled": expand, "for_loops": VList([])})
+    dims = VList([VList([("dim", d) for d in level]) for level in shape])
+    eng.call_contracts["Generator.get_integer"] = lambda eng, args, kw: args[1][1]
+    name = ".".join("c%d" % i for i in range(len(shape)))
+    tree = VObj(VClass("Symbol"), {"name": name, "dimensions": dims, "value": None})
+    flat = [d for level in shape for d in level if d is not None]
+    f = eng.find_function(GEN, "Generator.get_symbol")
+    try:
+        r = eng.call(VBound(f, g), [tree], {})
+    except PyRaise as e:
+        nm = e.exc.cls.name if isinstance(e.exc, VObj) else "?"
+        eng.cover("symbol.rejected")
+        eng.prove("symbol.only_three_or_more_dimensions_without_expand_vectors_are_rejected", z3.BoolVal(nm == "NotImplementedError" and len(flat) > 2 and not expand), exc=nm)
+        return
+    finally:
+        if orig_setattr is None:
+            del SymT.sym_setattr
+        else:
+            SymT.sym_setattr = orig_setattr
+    eng.cover("symbol.created")
+    eng.prove("symbol.three_or_more_dimensions_need_expand_vectors", z3.BoolVal(not (len(flat) > 2 and not expand)))
+    ok = len(made) == 1 and r is made[0] and r.nm == name and tuple(r.shape) == tuple(flat) and r.kind == ("MTensor" if len(flat) > 2 else "MX")
+    eng.prove("symbol.created_with_the_array_dimensions_of_all_levels", z3.BoolVal(bool(ok)), got=getattr(r, "shape", None))
+    eng.prove("symbol.modelica_shape_records_every_level_of_the_path", z3.BoolVal(getattr(r, "mshape", None) == tuple(tuple(l) for l in shape) and len(r.mshape) == len(name.split("."))))
+    kn = nodes.vals[0]
+    eng.prove("symbol.registered_under_the_flat_name", z3.BoolVal(kn.keys == [name] and kn.vals[0] is r))
+
+
+HARNESSES = [("Model._expand_vectors", h_expand), ("lemma: reshape/transpose index", h_index_lemma), ("Generator.get_symbol: shape bookkeeping", h_get_symbol)]
+EXPECTED_COVER = {"expand.done", "lemma.done", "symbol.created", "symbol.rejected"}
 BOUNDED = True
 LEVEL = "proof"
 TRUSTED = ["pyvc VC generator", "z3 5.1.0", "np.ndindex enumerates index tuples in row-major order; CasADi reshape is column-major, x[i, j] / x[(i, j)] selects element (i, j)",
